@@ -1,7 +1,8 @@
 #!/bin/sh
-# Offline setup: nothing to fetch or build ahead of time — every check compiles /repo's current
-# working tree with `cargo kani` into /verif/.cache (created on demand). This script only verifies
-# that the tools the checks need are present.
+# Offline setup. Nothing is fetched; every check compiles /repo's current working tree with
+# `cargo kani` into /verif/.cache (created on demand). This script verifies the tools and warms the
+# eight parallel build slots (dependencies rosu-map / rosu-mods compiled once per slot) so that the
+# first quick check does not pay for it.
 set -e
 cd "$(dirname "$0")"
 mkdir -p .cache evidence replays
@@ -9,4 +10,11 @@ command -v cargo >/dev/null
 cargo kani --version
 cbmc --version
 python3 -c 'import tomllib, json; tomllib.load(open("registry.toml","rb")); print("registry ok")'
-chmod +x vcheck
+chmod +x vcheck tools/run_seeded.sh tools_killsolvers.sh tools_killruns.sh 2>/dev/null || true
+if [ -d /repo ]; then
+  for i in 0 1 2 3 4 5 6 7; do
+    ( cd /repo && CARGO_NET_OFFLINE=true timeout 600 cargo kani -Z stubbing --target-dir /verif/.cache/kt-default-$i --harness c19_contained_columns >/dev/null 2>&1 || true ) &
+  done
+  wait
+fi
+echo "setup done"
